@@ -164,9 +164,13 @@ def one_history(ctx, hist_no, steps):
             want_exc = None
             arg = list(es) if dups or (op == "update" and rng.random() < 0.5) \
                 else set(es)
-            if op == "update" and rng.random() < 0.3:
-                arg = iter(list(es))
-                order = list(es)
+            if op in ("update", "ior", "iand", "isub") and \
+                    rng.random() < 0.3:
+                # one-shot operands: an iterator or a generator
+                order = list(es) if isinstance(arg, list) else list(arg)
+                arg = iter(list(order)) if rng.random() < 0.5 else \
+                    (e for e in list(order))
+                ctx.count("operand:one-shot:" + op)
             else:
                 order = list(arg)
             # the order in which the implementation will meet the edges
